@@ -46,7 +46,8 @@ def ref_bytes(script):
             opts = {'encoding': own, 'indent': indent, 'length': len(data), 'line_endings': kind,
                     'mimetype': k.get('mimetype')}
         elif fn == 'write_meta':
-            txt = json.dumps(a[0], indent=4, separators=(',', ': '), sort_keys=True)
+            from sx import instrument as _ins
+            txt = _ins.h_call(json.dumps, a[0], indent=4, separators=(',', ': '), sort_keys=True)
             data, kind = S.write_text_content(txt, eff, None, None)
             opts = {'encoding': own, 'format': 'json', 'length': len(data)}
         else:
@@ -175,6 +176,25 @@ def ob_meta(ctx, encs):
                    sample=lambda m: wit(m))
 
 
+def ob_meta_sym(ctx, encs, N):
+    """metadata with a symbolic string / integer vs the canonical serialisation of the specification (4-space indent,
+    sorted keys, ASCII-only escapes), byte for byte"""
+    from harness.rw import sym_meta
+    from sx.core import concretize_value
+    sid = ctx.pick('sid', ['.meta', '..meta', '...meta'])
+    own, main = ctx.pick('enc', encs)
+    md = sym_meta(ctx, N)
+    script = prefix_for(sid, Script(main))
+    script.add(sid, 'write_meta', md, **({} if own is None else {'encoding': own}))
+    wit = lambda m: {'kind': 'meta', 'sid': sid, 'main': main, 'meta': concretize_value(m, md), 'own': own}
+    got, exp = _run(ctx, script, wit)
+    if exp is None:
+        return got
+    props = [('bytes-equal-canonical-serialisation', seq_eq(got, exp))] + _struct_props(got)
+    return verdict(ctx, props, witness=lambda m: dict(wit(m), got=model_bytes(m, got), expected=model_bytes(m, exp)),
+                   sample=lambda m: wit(m))
+
+
 def _enc_configs(cat):
     return [(e, 'utf-8') for e in cat] + [(None, e) for e in cat]
 
@@ -197,6 +217,13 @@ def obligations(tier):
                   desc='real writer vs REF_WRITE; diff bytes symbolic', bounds={'diff_len': [1, N + 1]}))
     obs.append(Ob('meta', ob_meta, dict(encs=_enc_configs(cat)), must_reach=['DiffXWriter.write_meta'],
                   desc='metadata catalogue x encodings x levels vs REF_WRITE', bounds={'catalogue': len(METAS)}))
+    NM = 1 if quick else 2
+    menc = _enc_configs(cat) if not quick else [(None, 'utf-8'), ('utf-16', 'utf-8'), (None, 'utf-32-be'), ('latin-1', 'utf-16'), (None, 'ascii')]
+    obs.append(Ob('meta[symbolic]', ob_meta_sym, dict(encs=menc, N=NM), must_reach=['DiffXWriter.write_meta'], path_timeout=30,
+                  desc='metadata with a symbolic string of 1..%d arbitrary code points and a symbolic integer vs REF_WRITE '
+                       '(JSON text from CPython\'s pure-Python encoder under instrumentation on both sides; the arguments '
+                       'of the call are the writer\'s vs the specification\'s)' % NM,
+                  bounds={'string_len': [1, NM], 'int': [-1, 1], 'encodings': len(menc)}))
     return obs
 
 
